@@ -382,23 +382,15 @@ def _ident(rep, M, ce, file):
     I = M.classes.get((MOD, "Ident"))
     if I is None or "__init__" not in I.methods:
         raise Undecided("anchor vanished: dlde.Ident")
-    pat = None
-    method = None
-    for n in ast.walk(I.methods["__init__"].node):
-        if isinstance(n, ast.Call) and isinstance(n.func, ast.Attribute) and n.func.attr in ("match", "fullmatch", "search") and isinstance(n.func.value, ast.Name):
-            init = M.mod_consts.get(MOD, {}).get(n.func.value.id)
-            if isinstance(init, ast.Call) and init.args and not init.keywords and len(init.args) == 1:
-                try:
-                    pat = ce.eval(init.args[0], {}, MOD)
-                    method = n.func.attr
-                except NotConstant:
-                    pass
-    if not isinstance(pat, str):
+    from sa.decoders import ident_findings, ident_pattern
+    pm = ident_pattern(M, ce, MOD)
+    if pm is None:
         raise Undecided("cannot resolve the identification pattern")
-    # constructor raises ValueError when there is no match
-    ps = Engine(M).run(I.methods["__init__"])
-    if not any(p.status == "raise" and any(e[0] == "raise" and str(e[1]).startswith("ValueError") for e in p.effects) for p in ps):
-        rep.violation("R5", f"{MOD}.Ident.__init__", "no-raise", "Ident() does not raise ValueError for a non-matching line", file, I.node.lineno)
+    pat, method = pm
+    # the constructor accepts exactly what the pattern matches (ValueError otherwise): sample lines through the class itself (E-ABS)
+    for tag, text in ident_findings(M, MOD):
+        if tag in ("no-raise", "ident-rejects", "is-ident-line"):
+            rep.violation("R5", f"{MOD}.Ident.__init__", tag if tag != "ident-rejects" else "rejects-wellformed", text, file, I.node.lineno)
     try:
         P = to_dfa(pat, method)
         S = to_dfa(STRICT, "match")
